@@ -229,6 +229,7 @@ func runC18(w *World, tier string) (bool, interface{}) {
 	c.L.Faults.PermuteResults = true
 	members := AllMembers(n)
 	budget := 4 + w.Tape.Choose(5, "mutants")
+	acceptedFiles := 0 // malformed operation files the machine answered with a success result
 	injected := 0
 	judged := 0
 	var kinds []string
@@ -337,6 +338,15 @@ func runC18(w *World, tier string) (bool, interface{}) {
 					tk.panicV = nil
 					return
 				}
+				if perr == nil {
+					// an error result is the machine's way of refusing the step
+					var ro types.Operation
+					if fs := a.ResultFiles(); len(fs) > 0 {
+						if b, e := os.ReadFile(resultPathOf(a, d)); e == nil && json.Unmarshal(b, &ro) == nil && !strings.Contains(string(ro.Event), "error") && !strings.Contains(string(ro.Event), "decline") {
+							acceptedFiles++
+						}
+					}
+				}
 				if perr != nil {
 					after, _ := a.M.SimSnapshot()
 					if dd := snapDiff(before, after); len(dd) > 0 || len(a.ResultFiles()) != files {
@@ -399,6 +409,18 @@ func runC18(w *World, tier string) (bool, interface{}) {
 	if !w.Failed() {
 		c.L.Quiesce(8)
 	}
+	// malformed operation files are only shown to the machines (their results
+	// are never submitted): if every one of them was refused, the machines must
+	// be as good as before and the honest ceremony must complete
+	if surface == 1 && injected > 0 && acceptedFiles == 0 && !w.Failed() {
+		done := c.AllInState(round, StIdle, members) && len(c.Tr.Order) > 0 && c.Tr.AllHaveBatch(c.Tr.LastBatch(), members)
+		if !done {
+			sort.Strings(kinds)
+			w.Fail("C18", "machine-poisoned-by-refused-operation-file/"+firstKind(kinds), fmt.Sprintf("every malformed operation file was refused by the machines, yet the honest ceremony did not complete: states %v; files %v", states(c, round), kinds))
+		} else {
+			w.Stats.Probe("ceremony-completed-after-refused-files")
+		}
+	}
 	for _, nd := range w.Nodes {
 		if len(nd.Panics) > 0 && !w.Failed() {
 			w.Fail("C18", "node-panic", strings.Join(nd.Panics, "; "))
@@ -437,6 +459,23 @@ func panicSite(stack string) string {
 		}
 	}
 	return strings.Join(out, " <- ")
+}
+
+func firstKind(kinds []string) string {
+	if len(kinds) == 0 {
+		return "none"
+	}
+	return kinds[0]
+}
+
+// resultPathOf returns the result file a (possibly malformed) operation file maps to.
+func resultPathOf(a *AirNode, opJSON []byte) string {
+	var o types.Operation
+	if json.Unmarshal(opJSON, &o) != nil {
+		return ""
+	}
+	defer func() { _ = recover() }()
+	return a.ResultDir + "/" + o.Filename() + "_result.json"
 }
 
 func firstLineOf(s string) string {
